@@ -2,6 +2,7 @@ import IsoVerif.Driver.Core
 import IsoVerif.Model.Cigar
 import IsoVerif.Model.PolyA
 import IsoVerif.Model.PolyAFinder
+import IsoVerif.Model.TailSpec
 
 namespace IsoVerif.Driver.C16
 open Lean IsoVerif.Driver IsoVerif.Gen IsoVerif.Model IsoVerif.Model.C16
@@ -69,6 +70,42 @@ def ops : List (String × Handler) := [
       match ← jCigar (← arg j "cigar") with
       | none => pure (jErr "error")
       | some c => pure (ofOptInt (moveRefCoord c (← jInt (← arg j "shift"))))),
+  -- the base-by-base specification of the walk (Model/TailSpec.lean), compared with the real code as well
+  ("move_ref_coord_spec", fun j => do
+      match ← jCigar (← arg j "cigar") with
+      | none => pure (jErr "error")
+      | some c => pure (ofOptInt (moveRefCoordSpec c (← jInt (← arg j "shift"))))),
+  ("find_polya_tail", fun j => do
+      match ← jCigar (← arg j "cigar") with
+      | none => pure (jErr "error")
+      | some c =>
+        let seq ← jStr (← arg j "seq")
+        pure (ofOptInt (findPolyaTail (← jNat (← arg j "w")) (← jNat (← arg j "num")) (← jNat (← arg j "den"))
+          (← jInt (← arg j "s")) c seq.toList (← jInt (← arg j "from")) (← jInt (← arg j "to"))
+          (← jBool (← arg j "chk"))))),
+  ("find_polyt_head", fun j => do
+      match ← jCigar (← arg j "cigar") with
+      | none => pure (jErr "error")
+      | some c =>
+        let seq ← jStr (← arg j "seq")
+        pure (ofOptInt (findPolytHead (← jNat (← arg j "w")) (← jNat (← arg j "num")) (← jNat (← arg j "den"))
+          (← jInt (← arg j "s")) c seq.toList (← jInt (← arg j "from")) (← jInt (← arg j "to"))
+          (← jBool (← arg j "chk"))))),
+  -- the whole chain for one record: CIGAR walk, modelled finder, trimming
+  ("record_polya", fun j => do
+      match ← jCigar (← arg j "cigar") with
+      | none => pure (jErr "error")
+      | some c =>
+        let seq ← jStr (← arg j "seq")
+        let s ← jInt (← arg j "s")
+        let st := getReadBlocks s c
+        if st.refBlocks.isEmpty then pure (Json.mkObj [("no_exons", ofBool true)])
+        else
+          match detectPolya polya_window polya_fraction_num polya_fraction_den s c seq.toList with
+          | none => pure (jErr "error")
+          | some i =>
+            pure (Json.mkObj [("found", ofInfo i),
+              ("after", ofAInfo (addPolyaInfo (← jInt (← arg j "mf")) st.refBlocks st.readBlocks st.cigarBlocks i))])),
   ("detect_polya", fun j => do
       match ← jCigar (← arg j "cigar") with
       | none => pure (jErr "error")
@@ -120,6 +157,11 @@ def ops : List (String × Handler) := [
         let s ← jInt (← arg j "s")
         pure (Json.mkObj [("blocks", ofIvList (alignedBlocks s c)), ("reference_end", ofInt (referenceEnd s c))])),
   ("correct_bam_coords", fun j => do pure (ofIvList (correctBamCoords (← jIvList (← arg j "l"))))),
+  -- the specification of concat_gapless_blocks on pysam's blocks (Model/TailSpec.lean)
+  ("concat_gapless_spec", fun j => do
+      match ← jCigar (← arg j "cigar") with
+      | none => pure (jErr "error")
+      | some c => pure (ofIvList (concatGaplessSpec (← jInt (← arg j "s")) c))),
   ("concat_gapless_blocks", fun j => do
       match ← jCigar (← arg j "cigar") with
       | none => pure (jErr "error")
